@@ -331,9 +331,13 @@ func quatOf(v []int, dv float64) quaternion.Quaternion {
 // that name the same pool index share the pointer.
 func Build(d Desc) Built {
 	b := Built{}
-	for _, dm := range d.Meshes {
-		m := buildMesh(dm, d.VMode)
-		b.Meshes = append(b.Meshes, &m)
+	// only meshes a model names are built (a pool may hold 65 536-vertex entries)
+	b.Meshes = make([]*modeling.Mesh, len(d.Meshes))
+	for _, dm := range d.Models {
+		if dm.Mesh > 0 && b.Meshes[dm.Mesh-1] == nil {
+			m := buildMesh(d.Meshes[dm.Mesh-1], d.VMode)
+			b.Meshes[dm.Mesh-1] = &m
+		}
 	}
 	for _, dt := range d.Texs {
 		b.Texs = append(b.Texs, &gltf.PolyformTexture{URI: "img" + strconv.Itoa(dt.Uri) + ".png", Sampler: samplerOf(dt.Samp),
